@@ -25,6 +25,10 @@ use crate::{vensure, vfail};
 pub enum WOp {
     Write(u32),
     Flush,
+    /// like Write, but when the write is re-polled after a Pending result the caller passes a
+    /// buffer that has grown at the end by this many bytes (as `io::copy`-style pumps do); the
+    /// record announced by the first poll must still carry exactly its first bytes
+    WriteGrowing(u32, u8),
 }
 
 #[derive(Clone, Debug, Serialize, Deserialize)]
@@ -68,6 +72,8 @@ struct Actor {
     flag: Arc<FlagWaker>,
     /// data of the write in progress
     cur: Option<Vec<u8>>,
+    /// record length announced by the first poll of the write in progress
+    announced: usize,
 }
 
 pub fn stream_parser_for<'c>(cfg: &'c fastcgi_server::Config, id: u16, role: u16, flags: u8) -> Result<stream::Parser<'c>, Fail> {
@@ -79,7 +85,7 @@ pub fn stream_parser_for<'c>(cfg: &'c fastcgi_server::Config, id: u16, role: u16
     p.into_stream_parser().map_err(|e| Fail::new("c01-error", format!("{e:?}")))
 }
 
-fn test(c: &Case) -> TestResult {
+pub fn test(c: &Case) -> TestResult {
     let cfg = syncdrv::config(256, 3);
     let sp = stream_parser_for(&cfg, c.id, 1, 1)?;
     // input of the request's reader: management records then a little stdin data, no end
@@ -93,7 +99,7 @@ fn test(c: &Case) -> TestResult {
     let input = wire::encode_all(&in_recs);
     let e1: Vec<_> = model::stream_model(c.id, 1, &in_recs, 3).replies;
     // Large write volumes scale the accepted sizes so that a case stays cheap.
-    let total: usize = c.writers.iter().flat_map(|w| w.ops.iter()).map(|o| if let WOp::Write(n) = o { (*n as usize).min(65535) } else { 0 }).sum();
+    let total: usize = c.writers.iter().flat_map(|w| w.ops.iter()).map(|o| if let WOp::Write(n) | WOp::WriteGrowing(n, _) = o { (*n as usize).min(65535) } else { 0 }).sum();
     let mult = 1 + total / 3000;
     let write_script: Vec<WStep> = c.write_script.iter().map(|s| match s {
         WStep::Accept(n) => WStep::Accept((*n as usize * mult).min(65535) as u16),
@@ -114,7 +120,7 @@ fn test(c: &Case) -> TestResult {
             },
         };
         vensure!(u8::from(w.stream()) == ty, "c10-writer-stream", "writer reports stream {:?}, expected {ty}", w.stream());
-        actors.push(Actor { w, ty, ops: spec.ops.clone(), next: 0, flag: FlagWaker::new(true), cur: None });
+        actors.push(Actor { w, ty, ops: spec.ops.clone(), next: 0, flag: FlagWaker::new(true), cur: None, announced: 0 });
     }
     let n_writers = actors.len();
     let reader_flag = FlagWaker::new(true);
@@ -185,14 +191,23 @@ fn test(c: &Case) -> TestResult {
             let waker = Waker::from(a.flag.clone());
             let mut cx = Context::from_waker(&waker);
             match a.ops[a.next].clone() {
-                WOp::Write(len) => {
-                    if a.cur.is_none() {
+                WOp::Write(len) | WOp::WriteGrowing(len, _) => {
+                    let first_poll = a.cur.is_none();
+                    if first_poll {
                         a.cur = Some(write_data(k, a.next, len as usize));
+                        a.announced = (len as usize).min(65535);
+                    } else if let WOp::WriteGrowing(_, g) = a.ops[a.next] {
+                        // grow once, at the end
+                        let d = a.cur.as_mut().unwrap();
+                        if d.len() == len as usize && len > 0 {
+                            d.extend(std::iter::repeat(0xEE).take(g as usize + 1));
+                        }
                     }
+                    let announced = a.announced;
                     let data = a.cur.as_ref().unwrap();
                     match Pin::new(&mut a.w).poll_write(&mut cx, data) {
                         Poll::Ready(Ok(n)) => {
-                            let want = data.len().min(65535);
+                            let want = announced;
                             vensure!(n == want, "c10-write-count", "poll_write of {} bytes returned {n}, expected {want}", data.len());
                             if n > 0 {
                                 completed.push((k, a.next, a.ty, data[..n].to_vec()));
@@ -259,6 +274,25 @@ fn test(c: &Case) -> TestResult {
             other => mgmt.push(other),
         }
     }
+    // C08 in the multi-task setting: whenever the request's reader had to wait for the client,
+    // the replies owed for the records it had been handed were already on the log (a writer on
+    // another task holding the output lock must delay the *read*, not the reply)
+    {
+        let mut offs = Vec::with_capacity(in_recs.len() + 1);
+        let mut o = 0usize;
+        for r in &in_recs {
+            offs.push(o);
+            o += r.wire_len();
+        }
+        offs.push(o);
+        for &(log_len, read_pos) in &w.parks {
+            let k = offs.partition_point(|&x| x <= read_pos).saturating_sub(1);
+            let owed = model::mandatory(&e1.iter().filter(|e| e.cause < k).cloned().collect::<Vec<_>>());
+            let (lr, _) = wire::decode_log(&w.log[..log_len]).map_err(|e| Fail::new("c10-log-malformed", e))?;
+            let have = lr.iter().filter(|r| !matches!(r.ty, wire::T_STDOUT | wire::T_STDERR)).count();
+            vensure!(have >= owed, "c08-owed-at-park", "the request's reader waits for client input (after {read_pos} bytes = {k} records) while only {have} of {owed} owed replies are on the log ({log_len} bytes written)");
+        }
+    }
     vensure!(seen.iter().all(|&s| s), "c10-missing-record", "{} completed write(s) have no record on the log", seen.iter().filter(|&&s| !s).count());
     model::match_replies_prefix(&e1, &mgmt).map_err(|e| Fail::new("c10-mgmt-replies", e))?;
     Ok(Outcome::new(n_writers >= 2 && contended_mid_record)
@@ -275,6 +309,7 @@ fn wop() -> BoxedStrategy<WOp> {
     prop_oneof![
         8 => prop_oneof![2 => Just(0u32), 2 => Just(1), 2 => Just(7), 2 => Just(8), 2 => Just(9), 2 => Just(300), 1 => Just(65535), 1 => Just(65536), 1 => Just(70000), 6 => 1u32..=40, 3 => 1u32..=3000].prop_map(WOp::Write),
         1 => Just(WOp::Flush),
+        1 => (prop_oneof![1u32..=40, 1u32..=3000, Just(65535u32)], any::<u8>()).prop_map(|(l, g)| WOp::WriteGrowing(l, g)),
     ]
     .boxed()
 }
